@@ -16,7 +16,10 @@ use chia_consensus::conditions::{parse_spends, EmptyVisitor, MempoolVisitor};
 use chia_consensus::consensus_constants::TEST_CONSTANTS;
 use chia_consensus::flags::{ConsensusFlags, MEMPOOL_MODE};
 use chia_consensus::owned_conditions::OwnedSpendBundleConditions;
-use chia_protocol::{Bytes32, Coin, CoinRecord};
+use chia_consensus::run_block_generator::run_block_generator2;
+use chia_consensus::spendbundle_conditions::run_spendbundle;
+use chia_protocol::{Bytes32, Coin, CoinRecord, CoinSpend, Program, SpendBundle};
+use clvmr::serde::node_to_bytes;
 use clvmr::allocator::{Allocator, NodePtr};
 use serde::{Deserialize, Serialize};
 use serde_json::{json, Value};
@@ -155,6 +158,12 @@ pub struct Case {
     /// around 2^8 and 2^16. Ignored beyond the block limit when the flag set limits spends.
     #[serde(default)]
     pub pad_before: u32,
+    /// every coin's puzzle is the atom `1` (so all puzzle hashes are its tree hash and the
+    /// solution is the condition list), and the conditions are additionally obtained by running
+    /// a quoted generator through run_block_generator2 and a spend bundle through
+    /// run_spendbundle; each of the three results is checked at every chain state
+    #[serde(default)]
+    pub via_puzzles: bool,
 }
 
 /// number of padding spends actually used (a bundle above MAX_SPENDS_PER_BLOCK is rejected for
@@ -469,7 +478,11 @@ struct Built {
 
 fn build_ids(case: &Case) -> Built {
     let n = case.spends.len();
-    let puzzles: Vec<[u8; 32]> = (0..n).map(|i| seed32(b"ph", case.spends[i].puzzle_seed.wrapping_add(i as u64 * 7919))).collect();
+    // tree hash of the atom 1: sha256(1 | 0x01)
+    let ph1 = sha(&[&[1u8], &[1u8]]);
+    let puzzles: Vec<[u8; 32]> = (0..n)
+        .map(|i| if case.via_puzzles { ph1 } else { seed32(b"ph", case.spends[i].puzzle_seed.wrapping_add(i as u64 * 7919)) })
+        .collect();
     let mut parents: Vec<Option<[u8; 32]>> = vec![None; n];
     let mut coin_ids: Vec<Option<[u8; 32]>> = vec![None; n];
     // resolve in dependency order (parent_spend links form a forest; cycles are broken by treating the link as absent)
@@ -514,6 +527,13 @@ fn list(a: &mut Allocator, items: &[NodePtr]) -> NodePtr {
 }
 
 fn build_tree(a: &mut Allocator, case: &Case, b: &Built) -> NodePtr {
+    build_tree_mode(a, case, b, false)
+}
+
+/// generator = false: `(((parent puzzle_hash amount conditions) ...))` as parse_spends takes it;
+/// generator = true: `(q . (((parent 1 amount conditions) ...)))`, a block generator whose
+/// puzzles are the atom `1` and whose solutions are the condition lists
+fn build_tree_mode(a: &mut Allocator, case: &Case, b: &Built, generator: bool) -> NodePtr {
     let n = case.spends.len();
     let mut spends = vec![];
     let mut shared: std::collections::BTreeMap<(u8, Vec<u8>, u8), NodePtr> = std::collections::BTreeMap::new();
@@ -624,12 +644,61 @@ fn build_tree(a: &mut Allocator, case: &Case, b: &Built) -> NodePtr {
         }
         let cl = list(a, &conds);
         let p = a.new_atom(&b.parents[i]).unwrap();
-        let ph = a.new_atom(&b.puzzles[i]).unwrap();
+        let ph = if generator { a.new_atom(&[1]).unwrap() } else { a.new_atom(&b.puzzles[i]).unwrap() };
         let am = a.new_atom(&int_atom(sp.amount)).unwrap();
         spends.push(list(a, &[p, ph, am, cl]));
     }
     let sl = list(a, &spends);
-    list(a, &[sl])
+    let wrapped = list(a, &[sl]);
+    if generator {
+        let q = a.new_atom(&[1]).unwrap();
+        a.new_pair(q, wrapped).unwrap()
+    } else {
+        wrapped
+    }
+}
+
+/// The other two ways a node obtains a bundle's conditions (only with `via_puzzles`): running a
+/// block generator and running a spend bundle. Returns (path name, parse result) pairs.
+fn other_paths(case: &Case, ids: &Built) -> Vec<(&'static str, Result<OwnedSpendBundleConditions, String>)> {
+    let flags = flags_of(case);
+    let mut out = vec![];
+    let mut a = Allocator::new();
+    let generator = build_tree_mode(&mut a, case, ids, true);
+    let gen_bytes = node_to_bytes(&a, generator).unwrap();
+    let r = run_block_generator2::<&[u8], _>(&gen_bytes, [], u64::MAX / 2, flags, &Signature::default(), None, &TEST_CONSTANTS)
+        .map(|(a2, conds)| OwnedSpendBundleConditions::from(&a2, conds))
+        .map_err(|e| format!("{:?}", e.error_code()));
+    out.push(("run_block_generator2", r));
+    // the same spends as a SpendBundle: walk the generator's spend list
+    let mut coin_spends = vec![];
+    let first = |a: &Allocator, n: NodePtr| match a.sexp(n) {
+        clvmr::allocator::SExp::Pair(l, r) => (l, r),
+        clvmr::allocator::SExp::Atom => (n, n),
+    };
+    let (_, rest) = first(&a, generator);
+    let (mut iter, _) = first(&a, rest);
+    let mut i = 0usize;
+    while let clvmr::allocator::SExp::Pair(item, next) = a.sexp(iter) {
+        let (_parent, r) = first(&a, item);
+        let (puzzle, r) = first(&a, r);
+        let (_amount, r) = first(&a, r);
+        let (solution, _) = first(&a, r);
+        coin_spends.push(CoinSpend::new(
+            Coin::new(Bytes32::new(ids.parents[i]), Bytes32::new(ids.puzzles[i]), case.spends[i].amount),
+            Program::from(node_to_bytes(&a, puzzle).unwrap()),
+            Program::from(node_to_bytes(&a, solution).unwrap()),
+        ));
+        iter = next;
+        i += 1;
+    }
+    let bundle = SpendBundle::new(coin_spends, Signature::default());
+    let mut a3 = Allocator::new();
+    let r = run_spendbundle(&mut a3, &bundle, u64::MAX / 2, flags, &TEST_CONSTANTS)
+        .map(|(conds, _)| OwnedSpendBundleConditions::from(&a3, conds))
+        .map_err(|e| format!("{:?}", e.error_code()));
+    out.push(("run_spendbundle", r));
+    out
 }
 
 fn flags_of(case: &Case) -> ConsensusFlags {
@@ -733,6 +802,21 @@ impl C03 {
         if reference.static_reject == Some("malformed_integer") {
             c.inc("probe.bundle_with_malformed_integer");
         }
+        let others: Vec<(&'static str, Result<OwnedSpendBundleConditions, String>)> = if case.via_puzzles && effective_pad(case) == 0 {
+            c.inc("bundles.also_run_as_generator_and_spend_bundle");
+            match catch_unwind(AssertUnwindSafe(|| other_paths(case, &ids))) {
+                Ok(v) => v,
+                Err(_) => {
+                    return (
+                        Some(Violation { signature: "panic:run_block_generator2_or_run_spendbundle".into(), step: 0, detail: "panic".into() }),
+                        d.finish(),
+                        None,
+                    )
+                }
+            }
+        } else {
+            vec![]
+        };
 
         // ---- the chain ----
         let mut st = State { h: case.h0, t: case.t0 };
@@ -806,18 +890,20 @@ impl C03 {
                     }
                 }
             }
+            // the coin store as the node sees it in this chain state
+            if parsed.is_ok() || others.iter().any(|(_, r)| r.is_ok()) {
+                for i in 0..n {
+                    let (bh, bt) = if reference.ephemeral[i] { (st.h.saturating_add(1), st.t) } else { births[i] };
+                    let coin = Coin::new(Bytes32::new(ids.parents[i]), Bytes32::new(ids.puzzles[i]), case.spends[i].amount);
+                    records.insert(
+                        Bytes32::new(ids.coin_ids[i]),
+                        CoinRecord { coin, confirmed_block_index: bh, spent_block_index: 0, coinbase: false, timestamp: bt },
+                    );
+                }
+            }
             let obs: Result<bool, String> = match &parsed {
                 Err(_) => Ok(false),
                 Ok(conds) => {
-                    // the coin store as the node sees it in this chain state
-                    for i in 0..n {
-                        let (bh, bt) = if reference.ephemeral[i] { (st.h.saturating_add(1), st.t) } else { births[i] };
-                        let coin = Coin::new(Bytes32::new(ids.parents[i]), Bytes32::new(ids.puzzles[i]), case.spends[i].amount);
-                        records.insert(
-                            Bytes32::new(ids.coin_ids[i]),
-                            CoinRecord { coin, confirmed_block_index: bh, spent_block_index: 0, coinbase: false, timestamp: bt },
-                        );
-                    }
                     match catch_unwind(AssertUnwindSafe(|| check_time_locks(&records, conds, st.h, st.t, true))) {
                         Ok(Ok(())) => Ok(true),
                         Ok(Err(e)) => {
@@ -868,6 +954,46 @@ impl C03 {
                     match &parsed { Ok(_) => "accepted".to_string(), Err(e) => e.clone() }
                 );
                 return (Some(Violation { signature: sig, step, detail }), d.finish(), None);
+            }
+            // the same bundle, conditions obtained by running a generator / a spend bundle
+            for (path, r) in &others {
+                let obs2 = match r {
+                    Err(_) => false,
+                    Ok(conds) => match catch_unwind(AssertUnwindSafe(|| check_time_locks(&records, conds, st.h, st.t, true))) {
+                        Ok(v) => v.is_ok(),
+                        Err(_) => {
+                            return (
+                                Some(Violation { signature: format!("panic:check_time_locks:{path}"), step, detail: "panic".into() }),
+                                d.finish(),
+                                None,
+                            )
+                        }
+                    },
+                };
+                c.inc("states.checked_through_generator_or_bundle");
+                if obs2 != exp {
+                    let sig = if exp {
+                        match r {
+                            Err(e) => format!("{path}:satisfiable_bundle_rejected:{e}"),
+                            Ok(_) => format!("{path}:state_rejected_though_every_assertion_holds"),
+                        }
+                    } else {
+                        match why {
+                            Some((k, cl)) => format!("{path}:state_accepted_though_assertion_fails:{}:{}", k.name(), cls_name(cl)),
+                            None => format!("{path}:accepted_despite:{}", reference.static_reject.unwrap_or("?")),
+                        }
+                    };
+                    let detail = format!(
+                        "height={} timestamp={} births={:?}: expected {} observed {} ({path}: {})",
+                        st.h,
+                        st.t,
+                        births,
+                        if exp { "pass" } else { "fail" },
+                        if obs2 { "pass" } else { "fail" },
+                        match r { Ok(_) => "accepted".to_string(), Err(e) => e.clone() }
+                    );
+                    return (Some(Violation { signature: sig, step, detail }), d.finish(), None);
+                }
             }
         }
         let nontrivial = if passed > 0 && failed > 0 {
@@ -1264,7 +1390,24 @@ impl C03 {
             events: vec![],
             share_nodes: rng.chance(1, 3),
             pad_before: 0,
+            via_puzzles: rng.chance(1, 8),
         };
+        if case.via_puzzles {
+            // all puzzle hashes are equal now: keep coins distinct (parents unique per spend,
+            // children of one parent with distinct amounts) so that no duplicate-coin rule fires
+            for (i, sp) in case.spends.iter_mut().enumerate() {
+                sp.parent_seed = (sp.parent_seed << 6) | i as u64;
+                if sp.parent_spend.is_some() {
+                    sp.amount = 1 + i as u64;
+                }
+            }
+            for i in 0..nspends {
+                let need: u64 = (0..nspends).filter(|j| case.spends[*j].parent_spend == Some(i)).map(|j| case.spends[j].amount).sum();
+                if case.spends[i].amount < need {
+                    case.spends[i].amount = need + rng.below(3);
+                }
+            }
+        }
 
         let reference = Reference::new(&case);
         // coin births relative to the asserted values
